@@ -310,6 +310,8 @@ int ubuf_pic_common_split_fields(struct ubuf *ubuf, struct ubuf **odd,
     }
 
 
+    struct ubuf_pic_common_mgr *common_mgr =
+        ubuf_pic_common_mgr_from_ubuf_mgr(ubuf->mgr);
     for (int i = 0; i < 2; i++) {
         struct ubuf *field = i ? *odd : *even;
         struct ubuf_pic_common *pic_common = ubuf_pic_common_from_ubuf(field);
@@ -325,10 +327,15 @@ int ubuf_pic_common_split_fields(struct ubuf *ubuf, struct ubuf **odd,
             struct ubuf_pic_common_plane *p = &pic_common->planes[plane];
             size_t stride = p->stride;
             uint8_t *buffer = p->buffer;
+            /* the lines of the top margin are not part of the fields */
+            buffer += pic_common->vprepend / common_mgr->planes[plane]->vsub *
+                      stride;
             if (i)
                 buffer += stride;
             ubuf_pic_common_plane_init(field, plane, buffer, 2 * stride);
         }
+        pic_common->vprepend = 0;
+        pic_common->vappend = 0;
     }
 
     return UBASE_ERR_NONE;
